@@ -13,7 +13,13 @@ import (
 	"verif/tlc"
 )
 
-func init() { Registry["selftest-word"] = func(c *ev.Ctx) { c.Level = "other"; wordSelfTest(c); c.Set("explanation", "Word.tla vs Go native arithmetic") } }
+func init() {
+	Registry["selftest-word"] = func(c *ev.Ctx) {
+		c.Level = "other"
+		wordSelfTest(c)
+		c.Set("explanation", "Word.tla vs Go native arithmetic")
+	}
+}
 
 func limbsOf(x uint64, n int) []int {
 	w := make([]int, n)
@@ -83,7 +89,7 @@ func wordSelfTest(c *ev.Ctx) bool {
 	}
 	type res struct {
 		A, B, Add, Sub, Mul, Band, Bor, Bxor, Bnot, Shl, Shr, Quot, Rem, Dec []int
-		Lt                                                                  int
+		Lt                                                                   int
 	}
 	toU := func(w []int) uint64 {
 		var x uint64
